@@ -89,21 +89,6 @@ def jObs (o : Obs) : Json := Json.mkObj [
   ("inst", Json.arr (o.insts.map fun x => Json.mkObj [("c", toJson x.cls),
       ("rows", Json.arr (x.rows.map fun r => Json.arr #[jOptNat r.held, jOptNat r.stored, jOptNat r.copy]).toArray)]).toArray)]
 
-/-- the declared classes.  Parameter objects are numbered per class: the declared ones in
-declaration order, then the class's own copy of `name` (created by the metaclass when it assigns
-`cls.name = <class name>`; its default is the class-name object `npool + c`). -/
-def initState (npool : Nat) (decls : List (List CId × List (String × Bool × Bool × Obj))) : St :=
-  let s := decls.foldl (fun (s : St) d =>
-    let c := s.classes.length
-    let (dict, heap) := d.2.foldl (fun (acc : List (String × PId) × List Param) e =>
-        (aset acc.1 e.1 acc.2.length,
-         acc.2 ++ [{ constant := e.2.1 || e.2.2.1, readonly := e.2.2.1, default := e.2.2.2 }])) ([], s.heap)
-    let dict := aset dict "name" heap.length
-    let heap := heap ++ [{ constant := true, readonly := false, default := npool + c }]
-    { s with heap := heap, classes := s.classes ++ [{ mro := d.1, dict := dict, nameObj := npool + c }] })
-    { heap := [], classes := [], insts := [], nextObj := 0 }
-  { s with nextObj := npool + decls.length }
-
 def handle (req : Json) : Except String Json := do
   let case ← req.getObjVal? "case"
   let names ← (← getArr case "names").toList.mapM (·.getStr?)
